@@ -11,7 +11,8 @@ def ops(*names):
     return [dict(op=n) for n in names]
 
 
-def write_mc(name, cap, prodops, consops, workdir, sequential=False, freeops=False, maxops=0, emit=False):
+def write_mc(name, cap, prodops, consops, workdir, sequential=False, freeops=False, maxops=0, emit=False,
+             nested=False):
     mod = f"MCq_{name}"
     os.makedirs(workdir, exist_ok=True)
     prods = sorted(prodops)
@@ -23,6 +24,7 @@ def write_mc(name, cap, prodops, consops, workdir, sequential=False, freeops=Fal
     cfg = ["SPECIFICATION Spec", "CONSTANTS", f"  Cap = {cap}", "  Producers <- c_Producers", "  ProdOps <- c_ProdOps",
            "  ConsOps <- c_ConsOps", f"  Sequential = {'TRUE' if sequential else 'FALSE'}",
            f"  FreeOps = {'TRUE' if freeops else 'FALSE'}", f"  MaxOps = {maxops}",
+           f"  Nested = {'TRUE' if nested else 'FALSE'}",
            f"  Emit = {'TRUE' if emit else 'FALSE'}", "CHECK_DEADLOCK FALSE", "INVARIANTS",
            "  " + " ".join(INVARIANTS + ["EmitHist"])]
     with open(os.path.join(workdir, mod + ".cfg"), "w") as f:
